@@ -374,7 +374,15 @@ fn build_history(e: &mut Ent) -> Vec<Op> {
             14 => Op::DrRmw(p, v & 7, e.below(5) as u8, e.below(8) as u8),
             13 => {
                 let base = if e.chance(1, 2) { dr_addr(p) } else { ddr_addr(p) };
-                let a = match e.below(4) {
+                let a = match e.below(6) {
+                    // the same offset in the other register block (H'FFFF20 + k <-> H'FEE000 + k)
+                    4 | 5 => {
+                        if base >= 0xffff20 {
+                            0xfee000 + (base - 0xffff20)
+                        } else {
+                            0xffff20 + (base - 0xfee000)
+                        }
+                    }
                     0 => base.wrapping_add(0x100 * (1 + e.below(4))),
                     1 => base.wrapping_add(0x0100_0000 * (1 + e.below(255))),
                     2 => base ^ (1u32 << (8 + e.below(24))),
